@@ -29,7 +29,12 @@ FSI = 'impl FileSystem for OverlayFs'
 
 # REC: the obligations that tie the node state to the lower layers' content (C11 "deletions stay deleted", "does not resurrect").
 # They FAIL on the unchanged tree (findings O1-O3, reproduced in findings/repro_overlay.rs); False = leave them out (everything else is decided).
-CHECK_LOWER_RECORD = True
+import os
+CHECK_LOWER_RECORD = os.environ.get('VX_OVL_REC', '1') != '0'
+
+# O4: FileSystem::write passes a WRITE on a handle that lives in a lower layer to that layer's write() (fallocate refuses with EROFS);
+# False = leave `write` out of the unit
+CHECK_WRITE_LOWER = os.environ.get('VX_OVL_WRITE', '1') != '0'
 
 TOK = dict(param='Tracked(vxh): Tracked<&mut Heap>', arg='Tracked(vxh)')
 NODE_CALLEES = ['in_upper_layer', 'upper_layer_only', 'first_layer_inode', 'add_upper_inode', 'stat64', 'create_upper_dir', 'hu_upper', 'parent_node',
@@ -99,6 +104,7 @@ impl RisCell { pub uninterp spec fn id(&self) -> int; }
 #[verifier::external_body] pub struct ParentCell { _p: u8 }
 #[verifier::external_body] pub struct CounterCell { _p: u8 }
 impl CounterCell {
+    #[verifier::external_body] pub fn new(v: u64) -> (r: Self) { unimplemented!() }
     #[verifier::external_body] pub fn fetch_sub(&self, n: u64, o: Ordering, Tracked(vxh): Tracked<&mut Heap>) -> (r: u64) ensures *final(vxh) == *old(vxh) { unimplemented!() }
     #[verifier::external_body] pub fn fetch_add(&self, n: u64, o: Ordering) -> (r: u64) { unimplemented!() }
     #[verifier::external_body] pub fn load(&self, o: Ordering, Tracked(vxh): Tracked<&mut Heap>) -> (r: u64) ensures *final(vxh) == *old(vxh) { unimplemented!() }
@@ -147,7 +153,7 @@ impl OverlayInode {
     #[verifier::external_body] pub fn child(&self, name: &str, Tracked(vxh): Tracked<&mut Heap>) -> (r: Option<Arc<OverlayInode>>) ensures *final(vxh) == *old(vxh) { unimplemented!() }
     #[verifier::external_body] pub fn insert_child(&self, name: &str, node: Arc<OverlayInode>, Tracked(vxh): Tracked<&mut Heap>) ensures *final(vxh) == *old(vxh) { unimplemented!() }
     #[verifier::external_body] pub fn remove_child(&self, name: &str, Tracked(vxh): Tracked<&mut Heap>) ensures *final(vxh) == *old(vxh) { unimplemented!() }
-    #[verifier::external_body] pub fn count_entries_and_whiteout(&self, ctx: &Context, Tracked(vxh): Tracked<&mut Heap>) -> (r: Result<(u64, u64)>) ensures *final(vxh) == *old(vxh) { unimplemented!() }
+    #[verifier::external_body] pub fn count_entries_and_whiteout(&self, ctx: &Context, Tracked(vxh): Tracked<&mut Heap>) -> (r: Result<(u64, u64)>) ensures *final(vxh) == *old(vxh), r is Ok ==> r->Ok_0.0 + r->Ok_0.1 <= 0xffff_ffff_ffff_ffff { unimplemented!() }
     // `node.childrens.lock().unwrap().values().cloned().collect::<Vec<_>>()`: the children, each a live node one level below
     #[verifier::external_body] pub fn kids_snapshot(&self, Tracked(vxh): Tracked<&mut Heap>) -> (r: Vec<Arc<OverlayInode>>)
         ensures *final(vxh) == *old(vxh), forall|i: int| 0 <= i < r@.len() ==> old(vxh).nodes.contains_key((#[trigger] r@[i]).nid()) && r@[i].cells_ok() && old(vxh).nodes[r@[i].nid()].depth > old(vxh).nodes[self.nid()].depth { unimplemented!() }
@@ -167,6 +173,12 @@ pub uninterp spec fn lossy_str(b: Seq<u8>) -> Seq<char>;
 FSM = r'''
 #[verifier::external_body] pub struct InodeStoreCell { _p: u8 }
 #[verifier::external_body] pub struct HandlesCell { _p: u8 }
+// [seam S-HANDLES] every handle on record is honest about its layer (established where handles are made: open / do_create / get_data)
+pub open spec fn hd_wf(d: HandleData) -> bool { d.real_handle is Some && d.real_handle->Some_0.in_upper_layer ==> (*d.real_handle->Some_0.layer).is_upper() }
+impl HandlesCell {
+    #[verifier::external_body] pub fn insert_handle(&self, h: u64, d: Arc<HandleData>) requires hd_wf(*d) { unimplemented!() }
+    #[verifier::external_body] pub fn get_handle(&self, h: &u64) -> (r: Option<&Arc<HandleData>>) ensures r is Some ==> hd_wf(**r->Some_0) { unimplemented!() }
+}
 impl OverlayFs {
     // C10: the configured upper layer is THE object mutations may reach; without one there is none
     pub open spec fn fs_wf(&self) -> bool {
@@ -185,10 +197,18 @@ impl OverlayFs {
         &&& forall|k: int| #[trigger] o.nodes.contains_key(k) ==> n.nodes.contains_key(k) && n.nodes[k] == o.nodes[k]
         &&& forall|k: int| #[trigger] n.nodes.contains_key(k) && !o.nodes.contains_key(k) ==> n.rec_id(k)
     }
+    pub open spec fn nodes_frame(o: Heap, n: Heap) -> bool {
+        &&& n.inv() && n.log.len() >= o.log.len()
+        &&& forall|k: int| #[trigger] o.nodes.contains_key(k) ==> n.nodes.contains_key(k) && n.nodes[k] == o.nodes[k]
+        &&& forall|k: int| #[trigger] n.nodes.contains_key(k) && !o.nodes.contains_key(k) ==> n.rec_id(k)
+    }
+    // "whiteout nodes are never handed out": the number does not resolve to a whiteout node (assumption of setattr, which does not check)
+    pub uninterp spec fn never_wh(&self, ino: u64) -> bool;
     #[verifier::external_body] fn lookup_node(&self, ctx: &Context, parent: Inode, name: &str, Tracked(vxh): Tracked<&mut Heap>) -> (r: Result<Arc<OverlayInode>>)
         requires old(vxh).inv()
         ensures OverlayFs::lookup_frame(*old(vxh), *final(vxh)),
-            r is Ok ==> r->Ok_0 == self.s_node(parent, name@) && r->Ok_0.node_ok(*final(vxh)) && r->Ok_0.path@ == self.child_path(parent, name@) { unimplemented!() }
+            r is Ok ==> r->Ok_0 == self.s_node(parent, name@) && r->Ok_0.node_ok(*final(vxh)) && r->Ok_0.path@ == self.child_path(parent, name@),
+            r is Ok && name@.len() == 0 && self.never_wh(parent) ==> !final(vxh).nodes[r->Ok_0.nid()].wh { unimplemented!() }
     // [seam S-SCAN-COMPLETE] a loaded directory has a node for every name a lower layer shows in it
     #[verifier::external_body] fn lookup_node_ignore_enoent(&self, ctx: &Context, parent: u64, name: &str, Tracked(vxh): Tracked<&mut Heap>) -> (r: Result<Option<Arc<OverlayInode>>>)
         requires old(vxh).inv()
@@ -199,9 +219,6 @@ impl OverlayFs {
     pub uninterp spec fn has_node(&self, parent: u64, name: Seq<char>) -> bool;
     #[verifier::external_body] fn load_directory(&self, ctx: &Context, node: &Arc<OverlayInode>, Tracked(vxh): Tracked<&mut Heap>) -> (r: Result<()>)
         requires old(vxh).inv()
-        ensures OverlayFs::lookup_frame(*old(vxh), *final(vxh)) { unimplemented!() }
-    #[verifier::external_body] fn empty_node_directory(&self, ctx: &Context, node: Arc<OverlayInode>, Tracked(vxh): Tracked<&mut Heap>) -> (r: Result<()>)
-        requires old(vxh).inv(), self.fs_wf(), grant_all_args()
         ensures OverlayFs::lookup_frame(*old(vxh), *final(vxh)) { unimplemented!() }
     #[verifier::external_body] fn alloc_inode(&self, path: &String, Tracked(vxh): Tracked<&mut Heap>) -> (r: Result<u64>) ensures *final(vxh) == *old(vxh) { unimplemented!() }
     #[verifier::external_body] fn insert_inode(&self, inode: u64, node: Arc<OverlayInode>, Tracked(vxh): Tracked<&mut Heap>) ensures *final(vxh) == *old(vxh) { unimplemented!() }
@@ -368,13 +385,15 @@ def unit(root='/repo'):
     items.append(Copy('src/overlayfs/config.rs', r'pub struct Config\b'))
     items.append(Copy(OVL, r'pub enum CachePolicy\b'))
     items.append(Copy(OVL, r'pub struct OverlayFs\b', subst=FS_SUBST))
+    items.append(Copy(OVL, r'struct RealHandle\b', subst=[('AtomicU64', 'CounterCell')]))
+    items.append(Copy(OVL, r'struct HandleData\b'))
     items.append(Raw(FSM + CAPS))
 
     cud = tok(Fn(OVL, OI, 'create_upper_dir', props=['C11'], canary=True, sig_subst=SELF_ARC, body_resub=[OTHERSTR],
                  requires=UP_COMMON_REQ + ['old(vxh).nodes.contains_key(self.nid())', '!old(vxh).nodes[self.nid()].wh', 'mode_umask is None', 'grant_up_mkdir(*old(vxh), *ctx) // [C11.create_upper_dir.cap] directories made on the way up: the node\'s own name, its own mode, umask 0'],
                  ensures=UP_COMMON_ENS + [
                      'final(vxh).up_frame(*old(vxh), self.nid()) // [C11.create_upper_dir.frame] only this node and ancestors that were not in the upper layer change',
-                     'r is Ok ==> final(vxh).in_upper(self.nid()) // [C11.create_upper_dir.in_upper] afterwards the node has an upper directory',
+                     'r is Ok ==> final(vxh).in_upper(self.nid()) && !final(vxh).nodes[self.nid()].wh // [C11.create_upper_dir.in_upper] afterwards the node has an upper directory',
                      'r is Err ==> final(vxh).nodes[self.nid()] == old(vxh).nodes[self.nid()] // [C11.create_upper_dir.err_node] a failed copy-up leaves the node itself as it was',
                      REC_CLAUSE % 'create_upper_dir',
                      'r is Ok && !old(vxh).in_upper(self.nid()) ==> final(vxh).ris(self.nid()).len() == old(vxh).ris(self.nid()).len() + 1 && final(vxh).ris(self.nid()).skip(1) == old(vxh).ris(self.nid()) && !final(vxh).ris(self.nid())[0].whiteout // [C11.create_upper_dir.keeps_lowers] the new upper directory goes in front; the lower directories stay merged',
@@ -388,7 +407,7 @@ def unit(root='/repo'):
     COPY_REQ = UP_COMMON_REQ + ['old(vxh).nodes.contains_key(node.nid())', '!old(vxh).nodes[node.nid()].wh', 'grant_up_mkdir(*old(vxh), *ctx)']
     COPY_ENS = UP_COMMON_ENS + [
         'final(vxh).up_frame(*old(vxh), node.nid()) // [C11.copy_up.frame]',
-        'r is Ok ==> r->Ok_0 == node && final(vxh).in_upper(node.nid()) // [C11.copy_up.in_upper] after a successful copy-up the node stands on an upper object',
+        'r is Ok ==> r->Ok_0 == node && final(vxh).in_upper(node.nid()) && !final(vxh).nodes[node.nid()].wh // [C11.copy_up.in_upper] after a successful copy-up the node stands on an upper object',
         'no_upper() ==> r is Err // [C10.copy_up.no_upper] without an upper layer a copy-up fails (and no layer was touched: nothing is_upper)']
     NODE_AFTER = 'r is Ok && !old(vxh).in_upper(node.nid()) ==> !final(vxh).ris(node.nid())[0].whiteout && !final(vxh).ris(node.nid())[0].opaque && final(vxh).ris(node.nid())[0].in_upper_layer && !final(vxh).nodes[node.nid()].wh // [C11.%s.node] the node\'s first real inode is the upper copy'
     REC = [REC_CLAUSE % 'copy_up'] if CHECK_LOWER_RECORD else []
@@ -484,6 +503,62 @@ def unit(root='/repo'):
                                               ('name.to_string_lossy().to_string()', 'cstr_to_string_lossy(name)', 'CStr::to_string_lossy().to_string() as one model call')])
     rm.body_hooks = [R.r29_inline_upper_closure(0), R.r29_inline_upper_closure(0)]
     items.append(Group('impl OverlayFs {', [mk, rm]))
+
+    def op(name, reqs, extra_ens=(), nclos=2, presub=(), hooks=(), splices=(), resub=(), no_upper=True, canary=True):
+        f = tok(Fn(OVL, OF, name, props=['C10'], canary=canary, requires=OP_REQ + reqs, body_resub=[OTHERSTR] + list(resub),
+                   ensures=UP_COMMON_ENS + ([NO_UPPER % name] if no_upper else []) + list(extra_ens) + ([REC_CLAUSE % name] if CHECK_LOWER_RECORD else []),
+                   splices=list(splices)), path_callees=['new_from_real_inode'])
+        if presub:
+            f.locate = R.presub_locate(OF, name, list(presub))
+        f.body_hooks = list(hooks) + [R.r29_inline_upper_closure(0)] * nclos
+        return f
+    PJ = ('format!("{}/{}", pnode.path, name)', 'path_join(pnode.path.as_str(), name)', 'the child path as a model call (R7 would erase it)')
+    PARENT_REQ = ['parent_node.node_ok(*old(vxh))', 'self.path_of_ino(parent_node.inode) == parent_node.path@', 'name@.len() > 0']
+    mknod = op('do_mknod', PARENT_REQ, presub=[PJ])
+    symlink = op('do_symlink', PARENT_REQ, presub=[PJ])
+    create = op('do_create', PARENT_REQ, presub=[PJ], no_upper=False, resub=[(r'\bAtomicU64::new\(', 'CounterCell::new(', 'every: AtomicU64 -> the counter cell model')],
+                extra_ens=['self.upper_layer is None ==> r is Err && *final(vxh) == *old(vxh) // [C10.do_create.no_upper] without an upper layer: fails, nothing done'],
+                hooks=[R.resub_hook(r'self\.handles\s*\.lock\(\)\s*\.unwrap\(\)\s*\.insert\(handle, Arc::new\(handle_data\)\)', 'self.handles.insert_handle(handle, Arc::new(handle_data))', 'the handle table (not part of what is decided here): model call')],
+                splices=[('^', 'after', 'broadcast use axiom_arc_cloned;')])
+    link = op('do_link', ['src_node.node_ok(*old(vxh))', 'new_parent.node_ok(*old(vxh))', 'self.path_of_ino(new_parent.inode) == new_parent.path@', 'name@.len() > 0'],
+              presub=[('format!("{}/{}", new_parent.path, name)', 'path_join(new_parent.path.as_str(), name)', 'the child path as a model call (R7 would erase it)')])
+    items.append(Group('impl OverlayFs {', [mknod, symlink, create, link]))
+
+    HGET = R.resub_hook(r'self\.handles\.lock\(\)\.unwrap\(\)\.get\(&(\w+)\)', r'self.handles.get_handle(&\1)', 'the handle table: model call (a handle on record is honest about its layer, seam S-HANDLES)')
+    A64 = (r'\bAtomicU64::new\(', 'CounterCell::new(', 'every: AtomicU64 -> the counter cell model')
+    BCAST = ('^', 'after', 'broadcast use axiom_arc_cloned;')
+    gd = tok(Fn(OVL, OF, 'get_data', props=['C10'], canary=True, requires=OP_REQ, body_resub=[A64], splices=[BCAST],
+                ensures=UP_COMMON_ENS + ['r is Ok ==> hd_wf(*r->Ok_0) // [C10.get_data.handle] the handle data returned names its true layer',
+                                         ]))
+    gd.body_hooks = [HGET]
+    end = tok(Fn(OVL, OF, 'empty_node_directory', props=['C10'], canary=True, requires=OP_REQ + ['old(vxh).nodes.contains_key(node.nid())', 'node.cells_ok()'],
+                 ensures=UP_COMMON_ENS + ['OverlayFs::nodes_frame(*old(vxh), *final(vxh)) // [C11.empty_node_directory.frame] only the upper layer is emptied; no node changes its real inodes'],
+                 attrs=['#[verifier::exec_allows_no_decreases_clause]']))
+    end.body_hooks = [R.resub_hook(r'node\s*\.childrens\s*\.lock\(\)\s*\.unwrap\(\)\s*\.values\(\)\s*\.cloned\(\)\s*\.collect::<Vec<_>>\(\)', 'node.kids_snapshot()', 'the children as a vector (model call)'),
+                      R.r28_for_owned(r'\bfor\s+(child)\s+in\s+(iter)\s*\{', 'vec_into_iter', 'kid_it', header_extra='''
+            invariant vxh.inv(), OverlayFs::nodes_frame(*old(vxh), *vxh), self.fs_wf(), grant_all_args(), layer.is_upper(), vxh.nodes.contains_key(node.nid()),
+                forall|i: int| 0 <= i < kid_it.rem().len() ==> old(vxh).nodes.contains_key((#[trigger] kid_it.rem()[i]).nid()) && kid_it.rem()[i].cells_ok() && old(vxh).nodes[kid_it.rem()[i].nid()].depth > old(vxh).nodes[node.nid()].depth,
+            decreases kid_it.rem().len(),
+        ''')]
+    items.append(Group('impl OverlayFs {', [gd, end]))
+    # src/overlayfs/sync_io.rs: the FileSystem operations that modify without going through a do_* function
+    def fsop(name, sig=(), reqs=(), ens=(), hooks=(), resub=(), splices=()):
+        f = tok(Fn(OVLS, FSI, name, props=['C10'], canary=True, sig_subst=list(sig), requires=OP_REQ + list(reqs), body_resub=list(resub), splices=list(splices),
+                   ensures=UP_COMMON_ENS + list(ens)))
+        f.body_hooks = list(hooks)
+        return f
+    NOWH = 'self.never_wh(inode)   // the number does not resolve to a whiteout node (assumed: whiteout nodes are never handed out; setattr does not check)'
+    EMPTY = 'proof { reveal_strlit(""); assert(""@ =~= Seq::<char>::empty()); }'
+    setattr = fsop('setattr', reqs=[NOWH], hooks=[HGET], splices=[BCAST, ('let mut node = self.lookup_node(ctx, inode, "", Tracked(vxh))?;', 'before', EMPTY)],
+                   ens=['self.upper_layer is None ==> r is Err && *final(vxh) == *old(vxh) // [C10.setattr.no_upper]'])
+    setxattr = fsop('setxattr', splices=[('let node = self.lookup_node(ctx, inode, "", Tracked(vxh))?;', 'before', EMPTY)],
+                    ens=['no_upper() ==> r is Err // [C10.setxattr.no_upper] without an upper layer the operation fails (nothing is_upper: no layer was changed)'])
+    removexattr = fsop('removexattr', splices=[('let node = self.lookup_node(ctx, inode, "", Tracked(vxh))?;', 'before', EMPTY)],
+                       ens=['no_upper() ==> r is Err // [C10.removexattr.no_upper]'])
+    write = fsop('write', sig=[('r: &mut dyn ZeroCopyReader', 'r: &mut File')])
+    write.ret_name = 'res'
+    fallocate = fsop('fallocate', ens=['no_upper() ==> r is Err // [C10.fallocate.no_upper]'])
+    items.append(Group('impl OverlayFs {', [setattr, setxattr, removexattr, fallocate] + ([write] if CHECK_WRITE_LOWER else [])))
     u = Unit('ovl_ops', items, preludes=['base.rs', 'stdmodel.rs'], generic_tags=dict(C.GENERIC_TAGS, read_all=['C11'], all_bytes=['C11']), notes='; '.join(notes))
-    u.prelude_subst = [('use std::collections::HashMap;', '')]
+    u.prelude_subst = [C.LIBC_EXTRA, C.NO_STD_HASHMAP]
     return u
